@@ -212,7 +212,7 @@ pub fn run(ctx: &mut Ctx) {
     ctx.exhaustive("every insertion sequence of 0..=4 tokens over a 2x3 grid of generated positions (1555 sequences), built by SourceMap::new and by the builder, x every query on a 4x5 grid plus u32::MAX columns/lines");
 
     // ---- random maps, lookup only (extreme numbers allowed)
-    let total = ctx.size(300_000, 6_000_000);
+    let total = ctx.size(1_200_000, 8_000_000);
     for n in ctx.cases("maps", total) {
         let mut rng = ctx.begin("maps", n);
         ctx.eval();
@@ -247,7 +247,7 @@ pub fn run(ctx: &mut Ctx) {
     }
 
     // ---- histories: chains of map-producing operations, checked at every quiescent point
-    let total = ctx.size(40_000, 1_000_000);
+    let total = ctx.size(160_000, 1_500_000);
     for n in ctx.cases("chains", total) {
         let mut rng = ctx.begin("chains", n);
         ctx.eval();
